@@ -2,6 +2,7 @@
 import dmapcheck
 import dmaplib
 import vlib
+from vlib import cbytes, clist
 
 PID = "C19"
 PAIRS = [("ab", "a"), ("A19", "dmap.A19"), ("x", "y"), ("ab", "abc")]
@@ -209,10 +210,11 @@ def gen_join_names(rng, sid):
     for k in keys:
         ops.append({"op": "put", "c": "emb%d" % rng.randrange(n), "d": A, "k": k, "v": dmaplib.hx("A" + k[-4:])})
         ops.append({"op": "put", "c": "emb%d" % rng.randrange(n), "d": B, "k": k, "v": dmaplib.hx("B" + k[-4:])})
-    ops += [{"op": "join"}, {"op": "waitstable", "ms": 30000}]
+    ops += [{"op": "fragnames", "d": A, "_when": "before"}, {"op": "join"}, {"op": "waitstable", "ms": 30000}]
     for m in range(n + 1):
         ops.append({"op": "balance", "m": m})
     ops.append({"op": "waitstable", "ms": 30000})
+    ops.append({"op": "fragnames", "d": B, "_when": "after"})
     for k in keys:
         ops.append({"op": "get", "c": "emb%d" % rng.randrange(n + 1), "d": A, "k": k, "_want": dmaplib.hx("A" + k[-4:])})
         ops.append({"op": "get", "c": rng.choice(["cc", "emb%d" % n]), "d": B, "k": k, "_want": dmaplib.hx("B" + k[-4:])})
@@ -226,7 +228,7 @@ def gen_join_names(rng, sid):
     ops.append({"op": "scan", "c": "emb0", "d": first, "_n": 0})
     ops.append({"op": "scan", "c": "emb%d" % n, "d": second, "_n": len(keys)})
     cluster = {"members": n, "replicas": rng.choice([1, 2]) if n > 1 else 1, "partitions": 7, "table": 4096, "evict_workers": 1}
-    return {"id": sid, "cluster": cluster, "ops": ops, "_kind": "names"}
+    return {"id": sid, "cluster": cluster, "ops": ops, "_kind": "names", "_A": A, "_B": B}
 
 
 def judge_join_names(sc, obs):
@@ -244,6 +246,11 @@ def judge_join_names(sc, obs):
                 return (i, "key %s of the destroyed DMap %s reads %s %s" % (op["k"][-4:], op["d"], r, ob.get("val", "")))
             if want is not None and (r != "ok" or ob.get("val") != want):
                 return (i, "key %s of DMap %s reads %s %s, written %s (nobody touched this DMap)" % (op["k"][-4:], op["d"], r, ob.get("val", ""), want))
+        if o == "fragnames":
+            want = sorted(("dmap." + x).encode().hex() for x in (sc["_A"], sc["_B"])) if sc.get("_A") else None
+            if want is not None and ob.get("names") != want:
+                return (i, "%s the migration the fragments that hold entries are named %s; written were the DMaps %s and %s" % (
+                    op.get("_when"), [bytes.fromhex(x).decode(errors="replace") for x in ob.get("names") or []], sc["_A"], sc["_B"]))
         if o == "scan":
             if r != "ok":
                 return (i, "scan of %s returned %s" % (op["d"], r))
@@ -306,9 +313,40 @@ def failover_part(res):
         if v:
             bad += 1
             if bad <= 3:
-                res.violation({"kind": "impl-violates-property", "part": "failover", "cluster": sc["cluster"], "scenario": {"ops": sc["ops"], "_kind": sc.get("_kind")},
+                res.violation({"kind": "impl-violates-property", "part": "failover", "cluster": sc["cluster"], "scenario": {"ops": sc["ops"], "_kind": sc.get("_kind"), "_A": sc.get("_A"), "_B": sc.get("_B")},
                                "failed_step": v[0], "impl_trace": r["obs"][max(0, v[0] - 2):v[0] + 1],
                                "predicate": {"name": "Destroy removes every copy after a fail-over", "verdict": v[1]}, "seed": res.seed})
+    # fragment names against Model/FragName.v: the name derived for a DMap, the fragments that hold entries, and where they arrive
+    ncases = []
+    for sc in scs:
+        if sc.get("_kind") != "names":
+            continue
+        obs = results[sc["id"]].get("obs") or []
+        fr = [(op, ob) for op, ob in zip(sc["ops"], obs) if op["op"] == "fragnames" and ob.get("r") == "ok"]
+        nm = lambda hx_: cbytes(bytes.fromhex(hx_))
+        for op, ob in fr:
+            if ob.get("fn") is not None:
+                ncases.append((sc, "CName %s %s" % (cbytes(op["d"].encode()), nm(ob["fn"]))))
+        if len(fr) == 2:
+            ncases.append((sc, "CHolds %s %s" % (clist([cbytes(sc["_A"].encode()), cbytes(sc["_B"].encode())]), clist(nm(x) for x in fr[0][1]["names"]))))
+            ncases.append((sc, "CMove %s %s" % (clist(nm(x) for x in fr[0][1]["names"]), clist(nm(x) for x in fr[1][1]["names"]))))
+    if ncases:
+        text = ("From Coq Require Import List NArith.\nRequire Import Olric.Model.FragName.\nImport ListNotations.\n"
+                "Definition cases : list ncase := [\n" + ";\n".join(t for _, t in ncases) + "\n].\n"
+                "Definition M := Eval vm_compute in mismatches cases 0.\nPrint M.\n")
+        rc, out, err, dt = vlib.coq_eval_shards("c19names", [text], jobs=1)[0]
+        if rc != 0:
+            raise vlib.CheckError("coqc failed on generated cases: " + err[-2000:])
+        flat = " ".join((out.split("M =", 1)[1] if "M =" in out else "?").rsplit(":", 1)[0].split())
+        if flat not in ("[]", "nil") and not bad:
+            import re as _re
+            idx = [int(x) for x in _re.findall(r"\d+", flat)]
+            sc = ncases[idx[0]][0] if idx and idx[0] < len(ncases) else ncases[0][0]
+            res.violation({"kind": "model-vs-impl", "part": "failover", "cluster": sc["cluster"],
+                           "scenario": {"ops": sc["ops"], "_kind": "names", "_A": sc["_A"], "_B": sc["_B"]},
+                           "failed": "correspondence Model/FragName.v vs the implementation: " + (ncases[idx[0]][1] if idx and idx[0] < len(ncases) else flat)[:400],
+                           "seed": res.seed}, no_input=True)
+    res.coverage["fragment_name_cases"] = len(ncases)
     res.coverage["destroy_after_failover"] = {"scenarios": len(scs), "environment": env, "failures": bad,
                                               "rule": "2-3 members, 2 copies: 30 keys, a member stops, the keys are overwritten, Destroy; every copy of every "
                                                       "kind on every member must be gone, all keys read not-found, the scan is empty, the DMap takes new writes; and two DMaps whose "
@@ -336,7 +374,7 @@ def replay_failover(res, obj, path):
     ok, out = vlib.harness_build()
     if not ok:
         raise vlib.CheckError(out)
-    sc = {"id": 0, "cluster": obj["cluster"], "ops": obj["scenario"]["ops"], "_kind": obj["scenario"].get("_kind")}
+    sc = {"id": 0, "cluster": obj["cluster"], "ops": obj["scenario"]["ops"], "_kind": obj["scenario"].get("_kind"), "_A": obj["scenario"].get("_A"), "_B": obj["scenario"].get("_B")}
     for attempt in range(3):
         r = memberlib.run_membership([sc])[0]
         v = None if r.get("env", {}).get("error") else judge_failover_destroy(sc, r["obs"])
